@@ -211,6 +211,28 @@ RootIdx(L) == CHOOSE i \in 1..Len(L.nodes) :
                 L.nodes[i].par = 0 /\ \A j \in 1..Len(L.nodes) : L.nodes[j].par = 0 => j <= i
 DumpOf(L) == DumpTree(L, RootIdx(L))
 
+\* ---- DumpTable(e, skipEventNode = TRUE): the numeric rows of the public table (util.go:542-672) ----
+\* (0-based indices as printed; the `node` row, a truncated rendering of the value, is not modelled)
+FlagStr(ty) == CASE ty = "c" -> "C" [] ty = "v" -> "V" [] ty = "o" -> "OP" [] ty = "f" -> "OPf"
+                 [] ty \in {"if", "fi"} -> "COND" [] OTHER -> "EVNT"
+ScStr(nd) == CASE nd.sct /\ nd.scf -> "TF" [] nd.sct -> "T" [] nd.scf -> "F" [] OTHER -> ""
+TableOf(L) ==
+  LET N == L.nodes
+      E0 == [idx |-> <<>>, pIdx |-> <<>>, flag |-> <<>>, cCnt |-> <<>>, scIdx |-> <<>>, scVal |-> <<>>, osTop |-> <<>>]
+      RECURSIVE go(_, _)
+      go(i, acc) ==
+        IF i > Len(N) THEN acc
+        ELSE IF N[i].ty = "ev" THEN go(i + 1, acc)
+        ELSE go(i + 1, [idx |-> Append(acc.idx, i - 1), pIdx |-> Append(acc.pIdx, N[i].par - 1),
+                        flag |-> Append(acc.flag, FlagStr(N[i].ty)), cCnt |-> Append(acc.cCnt, N[i].cc),
+                        scIdx |-> Append(acc.scIdx, N[i].sc - 1), scVal |-> Append(acc.scVal, ScStr(N[i])),
+                        osTop |-> Append(acc.osTop, N[i].top - 1)])
+  IN [size |-> Len(N), stack |-> L.max, rows |-> go(1, E0)]
+TableEq(T, obs) ==
+  /\ T.size = obs.size /\ T.stack = obs.stack
+  /\ T.rows.idx = obs.idx /\ T.rows.pIdx = obs.pIdx /\ T.rows.flag = obs.flag /\ T.rows.cCnt = obs.cCnt
+  /\ T.rows.scIdx = obs.scIdx /\ T.rows.scVal = obs.scVal /\ T.rows.osTop = obs.osTop
+
 RECURSIVE TreeEq(_, _)
 TreeEq(a, b) ==
   /\ a.k = b.k
